@@ -99,9 +99,9 @@ PROPS = {
     },
     "C08": {
         "lean": ["Seccomp.Proofs.C08"],
-        "streams": [{"stream": "raw", "profile": "mix", "quick": 2000, "thorough": 50000, "thorough_seeds": 2},
-                    {"tool": "vprobe", "stream": "kernel", "profile": "decide", "quick": 60, "thorough": 1500, "thorough_seeds": 2, "args": ["-profile", "decide"]},
-                    {"tool": "vprobe", "stream": "kernel", "profile": "verifier", "quick": 60, "thorough": 1500, "thorough_seeds": 2, "args": ["-profile", "verifier"]},
+        "streams": [{"stream": "raw", "profile": "mix", "quick": 2000, "thorough": 20000, "thorough_seeds": 2},
+                    {"tool": "vprobe", "stream": "kernel", "profile": "decide", "quick": 60, "thorough": 400, "thorough_seeds": 2, "args": ["-profile", "decide"]},
+                    {"tool": "vprobe", "stream": "kernel", "profile": "verifier", "quick": 60, "thorough": 500, "thorough_seeds": 2, "args": ["-profile", "verifier"]},
                     {"tool": "vprobe", "stream": "kernel", "profile": "load", "quick": 20, "thorough": 300, "args": ["-profile", "load"]}],
         "trusted": CBPF_TRUST + ["the kernel's classic-BPF interpreter, checker and action handling (Model/Raw.lean: runRaw, kernelAccepts; Proofs/C08.lean: outcome) are modelled, not verified; validated against the running kernel (6.18) on every run",
                                  "x/net bpf.Assemble for the four instruction kinds is modelled by `encode` (raw stream: exact equality)"],
